@@ -170,6 +170,18 @@ def check(case):
                         fail("set-delete-set-differs:%s" % dt, "%r then %r" % (text, str(l)))
                 except gfapy.Error as e:
                     fail("set-after-delete-raises-%s:%s" % (type(e).__name__, dt), harness.short(e, 120))
+                # the same through the attribute syntax (the line knows the tag name by now): a new tag takes the default datatype of its value
+                if not declared:
+                    try:
+                        l.delete(tagname)
+                        setattr(l, tagname, value)
+                        t2 = str(l)
+                        if t2 != text:
+                            fail("delete-then-attribute-assignment-differs:%s" % dt, "%r then %r" % (text, t2))
+                        elif l.get_datatype(tagname) != dt:
+                            fail("delete-then-attribute-assignment-datatype:%s-instead-of-%s" % (l.get_datatype(tagname), dt), repr(value))
+                    except gfapy.Error as e:
+                        fail("attribute-assignment-after-delete-raises-%s:%s" % (type(e).__name__, dt), harness.short(e, 120))
         elif valid is False:
             if reported is None and vrep is None:
                 fail("unrepresentable-value-not-reported:%s" % dt, "%r written as %r" % (value, text))
